@@ -103,6 +103,8 @@ xml_get_val_arr(const uint8_t *xml_data, size_t xml_data_size,
 			return (ESPIPE);
 		TagStart ++;
 		data_avail = (size_t)(xml_data_end - TagStart);
+		if (0 == data_avail) /* '<' is last byte. */
+			return (ESPIPE);
 		switch ((*TagStart)) {
 		case '?': /* <?...?> processing instructions */
 			TagEnd = mem_find_ptr_cstr(TagStart, xml_data, xml_data_size, "?>");
@@ -549,6 +551,8 @@ xml_get_val_ns_arr(const uint8_t *xml_data, size_t xml_data_size,
 			return (ESPIPE);
 		TagStart ++;
 		data_avail = (size_t)(xml_data_end - TagStart);
+		if (0 == data_avail) /* '<' is last byte. */
+			return (ESPIPE);
 		switch ((*TagStart)) {
 		case '?': /* <?...?> processing instructions */
 			TagEnd = mem_find_ptr_cstr(TagStart, xml_data, xml_data_size, "?>");
